@@ -29,11 +29,16 @@ func TestVerif(t *testing.T) {
 	case "C06":
 		verifSched(t, r, out, "sch6")
 		verifAdv(t, r, out, "adv6")
+		verifReinit(t, r, out)
 	case "C07":
 		verifSched(t, r, out, "sch7")
 		verifAdv(t, r, out, "adv7")
+		verifConcurrentFailures(t, out)
 	case "C08":
 		verifC08(t, r, out)
+		// the advertiser's terminate() is the server's terminator: whether a terminating signal is
+		// visible to the tasks before they see the cancellation is the Serve scenarios' business
+		verifC20(t, r, out)
 	case "C09":
 		verifC09(t, r, out)
 	case "C10":
